@@ -174,8 +174,6 @@ def scenarios(rng: random.Random, tier: str) -> list[str]:
     for i in range(150 if tier == "quick" else 3000):
         cfgn = rng.choice(["basic", "two", "out", "noapp"])
         out.append(nodegen.random_scenario(rng, cfgn, 6 if tier == "quick" else 10, unique=True, handshake=0.3))
-    # every scenario also under the alternative schedule (writer and I/O loop run as soon as a message is queued)
-    out += [nodecheck.eager(l) for l in out[::1 if tier != "quick" else 2]]
     return out
 
 
